@@ -24,15 +24,19 @@ add("C35", "exploration",
     "runtime oracle over executions of EncryptionGroup (data scheme) driven by a harness network over "
     "the crate's test_utils peers: per-receiver random causal delivery to members, not-yet members and "
     "removed members; secret agreement / cross-decryption / exclusion ledger at every quiescence point",
-    "60 / 5 000 random histories (create, add, re-add, remove, update, send; 0/30/70 % of the operations "
-    "issued by members that have not seen all earlier ones) over 3-8 peers. At each quiescence point: every "
+    "60 / 5 000 random histories (create, add, re-add, remove, update, send) over 3-8 peers: 40 % sequential, "
+    "40 % with concurrent update/remove/send but every add causally ordered with every group change, 20 % "
+    "with unrestricted concurrency. At each quiescence point: every "
     "current member holds the maximum-(timestamp,id) secret of the group, data encrypted by any current "
     "member decrypts at every other one, and no removed member holds a secret whose generation causally "
     "follows its removal. Exploration over the histories it generated.",
     "Uses the crate's set-based test DGM and dependency orderer; concurrent operations are restricted to "
     "non-conflicting targets so that membership itself is unambiguous. A re-added member is a member again "
     "(its exclusion ledger restarts). Membership views, receive errors and in-history application "
-    "messages are recorded, not judged.",
+    "messages are recorded, not judged. Findings in histories that contain an add concurrent with another "
+    "group change carry the signature suffix ':after-add-concurrent-with-group-change' (the data scheme "
+    "has no reconciliation for that case: known findings); the same judgements without the suffix - "
+    "sequential histories and concurrency among established members - are expected to hold.",
     quick=[st("vh-enc")],
     thorough=[st("vh-enc")],
     design_ref="DESIGN.md §1 C35")
